@@ -66,4 +66,18 @@ def plan(tier, seed):
              for i, part in enumerate(split(regs, 16))]
     cl = [r for r in regs if 'elastic|' in r][:12] + [r for r in regs if 'scaled|int:' in r][:10] + [r for r in regs if 'wide|' in r][:6]
     units.append(Unit('C03-clang', 'clang', 'props/C03.h', cl, rc_cases=cases, enum_max=2 ** 17, chunk=10))
+    # every exponent distance, both orders of (coarser, finer) and of (wider, narrower) rep: the two mirrored comparison specialisations
+    # (distances are bounded by the digits of the promoted coarser rep: beyond that the alignment is ill-formed / a shift by >= width)
+    ESI = 'cnl::elastic_scaled_integer'
+    pE = 'cnl::power<E>'
+    sweeps = [
+        ('Sw_s32_s32', 'c03::Cmp<%s, cnl::scaled_integer<int, %s>, 1>' % (sc(S32, 0), pE), 'scaled|sweep|int:0|int:E', -30, 30),
+        ('Sw_s64_s32', 'c03::Cmp<%s, cnl::scaled_integer<int, %s>, 1>' % (sc(S64, 0), pE), 'scaled|sweep|long:0|int:E', -62, 30),
+        ('Sw_s32_s64', 'c03::Cmp<%s, cnl::scaled_integer<long, %s>, 1>' % (sc(S32, 0), pE), 'scaled|sweep|int:0|long:E', -30, 62),
+        ('Sw_u64_u16', 'c03::Cmp<%s, cnl::scaled_integer<unsigned short, %s>, 1>' % (sc(U64, 0), pE), 'scaled|sweep|unsigned_long:0|unsigned_short:E', -63, 30),
+        ('Sw_s8_s64', 'c03::Cmp<cnl::scaled_integer<signed char, %s>, %s, 1>' % (pE, sc(S64, 0)), 'scaled|sweep|signed_char:E|long:0', -62, 30),
+        ('Sw_e30_e30', 'c03::Cmp<%s<30, cnl::power<0>>, %s<30, %s>, 0>' % (ESI, ESI, pE), 'elastic_scaled|sweep|30_int:0|30_int:E', -70, 70),
+        ('Sw_e60_e12u', 'c03::Cmp<%s<60, %s>, %s<12, cnl::power<0>, unsigned>, 0>' % (ESI, pE, ESI), 'elastic_scaled|sweep|60_int:E|12_unsigned:0', -60, 60),
+    ]
+    units += sweep_units('C03', 'props/C03.h', sweeps, cases * 2, nunits=8, keep=(lambda i, r: i % 2 == 0) if quick else None)
     return dict(units=units, rule=RULE, assumptions=['operands enter wide and elastic types through their representation (limb arrays / from_rep), not through CNL arithmetic'])
